@@ -432,16 +432,15 @@ def translate_get_token_trees(ck: Ck) -> bool:
     return ok
 
 
-def get_token_tree_obligations(ck: Ck, translated: bool, hs_rows: bool = False) -> None:
-    """Instance obligations about the trees read from _get_token / _handle_comment (one per segment) and the state census.  When
-    a tree differs from the model's function, the differing environments and (small scope, inside Coq) texts on which the
-    code's trees and the hand model give different traces are reported; each such text is run on the implementation."""
-    from harness.common import parse_coq_nested
+def get_token_tree_group(translated: bool, hs_rows: bool = False, next_char: bool = False) -> tuple | None:
+    """(imports, obligations, name) for ck.instance_obligations / instance_obligations_parallel; None when the translator failed."""
     if not translated:
-        return          # translate:GtTrees_gen is already a failed obligation; the invalid trees carry no information
-    extra = {'handle_string_rows_are_the_model': 'handle_string_rows_are_the_model',
-             'handle_string_flag_starts_false': 'handle_string_flag_starts_false'} if hs_rows else {}
-    res = ck.instance_obligations(GT_IMPORTS, {**extra,
+        return None          # translate:GtTrees_gen is already a failed obligation; the invalid trees carry no information
+    obs = {}
+    if hs_rows:
+        obs.update({'handle_string_rows_are_the_model': 'handle_string_rows_are_the_model',
+                    'handle_string_flag_starts_false': 'handle_string_flag_starts_false'})
+    obs.update({
         'get_token_dispatch_is_the_model': 'get_token_dispatch_is_the_model',
         'bracket_loop_is_the_model': 'bracket_loop_is_the_model',
         'paren_loop_is_the_model': 'paren_loop_is_the_model',
@@ -453,7 +452,26 @@ def get_token_tree_obligations(ck: Ck, translated: bool, hs_rows: bool = False) 
         'tokenizer_class_binds_no_shared_data_attribute': 'tokenizer_class_binds_no_shared_data_attribute',
         'tokenizer_functions_read_only_modelled_state': 'tokenizer_functions_read_only_modelled_state',
         'tokenizer_functions_write_only_modelled_state': 'tokenizer_functions_write_only_modelled_state',
-    }, name='gtinst')
+    })
+    if next_char:
+        obs['next_char_rows_are_the_model'] = 'next_char_rows_are_the_model'
+    return (GT_IMPORTS + (['SV.Text.NextChar', 'SV.Text.NextCharGen'] if next_char else []), obs, 'gtinst')
+
+
+def get_token_tree_obligations(ck: Ck, translated: bool, hs_rows: bool = False, res: dict | None = None) -> None:
+    """Instance obligations about the trees read from _get_token / _handle_comment (one per segment) and the state census.  When
+    a tree differs from the model's function, the differing environments and (small scope, inside Coq) texts on which the
+    code's trees and the hand model give different traces are reported; each such text is run on the implementation.
+    `res`: results of the group when it was already evaluated (in parallel with other groups)."""
+    from harness.common import parse_coq_nested
+    if not translated:
+        return
+    if res is None:
+        g = get_token_tree_group(translated, hs_rows)
+        res = ck.instance_obligations(g[0], g[1], name=g[2])
+    if res.get('next_char_rows_are_the_model') is False:
+        ck.tie_broken.append('the table read from Tokenizer._next_char is not the table of the model Text/NextChar.v')
+        ck.notes.append(f'_next_char rows: {ck.extra.get("translated", {}).get("NextChar_gen", {})}')
     side = ck.extra.get('translated', {}).get('GtTrees_gen', {})
     ck.count('get_token_tree_leaves', side.get('leaves', 0))
     bad_census = [n for n in res if n.startswith('tokenizer_') and not res[n]]
@@ -461,7 +479,7 @@ def get_token_tree_obligations(ck: Ck, translated: bool, hs_rows: bool = False) 
         cen = {k: v for k, v in side.get('state_census', {}).items() if v}
         ck.tie_broken.append(f'state census of _get_token/_handle_comment/_handle_string: {cen}')
         ck.notes.append(f'state census: {cen}')
-    if all(v for n, v in res.items() if not n.startswith(('tokenizer_', 'handle_string_'))):
+    if all(v for n, v in res.items() if not n.startswith(('tokenizer_', 'handle_string_', 'next_char_'))):
         return
     ck.tie_broken.append('the decision trees read from Tokenizer._get_token/_handle_comment are not those of the model Text/Tokenizer.v')
     vals = ck.coq_eval(GT_IMPORTS, ['map (fun p => (fst p, firstn 6 (snd p), length (snd p))) gen_tree_diffs',
